@@ -35,6 +35,9 @@ def oracle(lines):
             cur = {"name": f[2], "seed": f[3], "arenas": {}, "allocs": [], "nulls": [], "exhaust": [], "fallback": None,
                    "counts": {}, "ended": False, "crash": None}
             scn[f[2]] = cur
+        elif k == "rss":
+            if f[2] in scn:
+                scn[f[2]]["rss_kb"] = int(f[3])
         elif k == "crash":
             if f[2] in scn:
                 scn[f[2]]["crash"] = f[3]
@@ -64,6 +67,7 @@ def oracle(lines):
         wit0 = "t_arena <seed> <tier> %s  (scenario %s, derived seed %s)" % (base, name, s["seed"])
         if s["crash"] is not None or not s["ended"]:
             fail("impl:harness-crash:" + base, "scenario %s of harness/t_arena.c died (signal/status %s) on the current tree" % (name, s["crash"]), wit0)
+        stats["max_rss_kb"] = max(stats["max_rss_kb"], s.get("rss_kb", 0))
         arenas = s["arenas"]
         for a in arenas.values():
             stats["arenas"] += 1
@@ -152,7 +156,9 @@ def run(res, a):
     seeds = [a.seed] if a.tier != "thorough" else [a.seed, a.seed + 1, a.seed + 2]
     lines = []
     for sd in seeds:
-        rc, out, err = vlib.run_split([exe, str(sd), "1" if a.tier == "thorough" else "0"], timeout=1500, env=vlib.clean_env())
+        # every scenario of the harness is a child with its own limits (24 GiB address space, no THP, 90/300 s); the whole run is bounded too
+        rc, out, err = vlib.run_split(["timeout", "-k", "5", "2400" if a.tier == "thorough" else "600", exe, str(sd), "1" if a.tier == "thorough" else "0"],
+                                      timeout=2500 if a.tier == "thorough" else 650, env=vlib.clean_env())
         lines += out.splitlines()
         if rc != 0 or not out.rstrip().endswith("END"):
             res.violation("harness-crash", "t_arena exited with %d: %s" % (rc, err[-800:]), witness="t_arena %d" % sd)
